@@ -445,76 +445,7 @@ func checkC05(R *Run) {
 	R.floor("priv-exact", 43)
 	R.note(fmt.Sprintf("%d registered handlers, %d Authorize call sites on the requester.", len(regs), nGuardSites))
 
-	// authorize-sound
-	if fn := R.mustFn("(*hotline.ClientConn).Authorize"); fn != nil {
-		R.analysed(fname(fn))
-		okAll := true
-		why := ""
-		// the values returned: a result written as `a != nil && b` is a phi of (false, b)
-		var retVals []struct {
-			v   ssa.Value
-			ret *ssa.Return
-		}
-		for _, ret := range returnsOf(fn) {
-			if len(ret.Results) != 1 {
-				okAll = false
-				continue
-			}
-			vals := []ssa.Value{ret.Results[0]}
-			if phi, ok := ret.Results[0].(*ssa.Phi); ok {
-				vals = phi.Edges
-			}
-			for _, v := range vals {
-				retVals = append(retVals, struct {
-					v   ssa.Value
-					ret *ssa.Return
-				}{v, ret})
-			}
-		}
-		for _, rv := range retVals {
-			v, ret := rv.v, rv.ret
-			if c, ok := v.(*ssa.Const); ok && c.Value != nil && c.Value.String() == "false" {
-				// must be on the nil-account edge
-				continue
-			}
-			call, ok := v.(*ssa.Call)
-			if !ok || calleeName(&call.Call) != "(*hotline.AccessBitmap).IsSet" || len(call.Call.Args) != 2 || call.Call.Args[1] != ssa.Value(fn.Params[1]) {
-				okAll = false
-				why = "a return is neither the constant false nor Access.IsSet(access) at " + P.ipos(ret)
-				continue
-			}
-			// receiver must be &cc.Account.Access
-			fa, ok := call.Call.Args[0].(*ssa.FieldAddr)
-			if !ok {
-				okAll = false
-				why = "IsSet receiver is not the Access field"
-				continue
-			}
-			if f, _ := fieldOf(fa); f != "hotline.Account.Access" {
-				okAll = false
-				why = "IsSet receiver is " + f
-				continue
-			}
-			if acc, ok := loadedField(fa.X); !ok || acc != "hotline.ClientConn.Account" {
-				okAll = false
-				why = "Access is not the one of cc.Account"
-			}
-		}
-		// the nil test must exist
-		nilTest := false
-		factEdges(fn, func(e Edge, f Fact) {
-			if f.Kind == "nil" {
-				if fld, ok := loadedField(f.V); ok && fld == "hotline.ClientConn.Account" {
-					nilTest = true
-				}
-			}
-		})
-		if !nilTest {
-			okAll = false
-			why += " no nil-account test"
-		}
-		R.check(okAll, "authorize-sound", fname(fn), P.pos(fn.Pos()), "returns false for nil account, else Account.Access.IsSet(access)", "Authorize no longer has the shape 'nil account → false, else Account.Access.IsSet(access)': "+why)
-	}
+	R.ruleAuthorizeSound()
 
 	// login-name-guard: in handleNewConnection
 	if fn := R.mustFn("(*hotline.Server).handleNewConnection"); fn != nil {
@@ -594,3 +525,80 @@ func privStr(p *int) string {
 }
 
 func init() { register("C05", checkC05) }
+
+// ruleAuthorizeSound (C05, shared with C16: the bit consulted at authorization time is the bit in the account's
+// bitmap now, not a decoded copy of it).
+func (R *Run) ruleAuthorizeSound() {
+	P := R.P
+	_ = P
+	if fn := R.mustFn("(*hotline.ClientConn).Authorize"); fn != nil {
+		R.analysed(fname(fn))
+		okAll := true
+		why := ""
+		// the values returned: a result written as `a != nil && b` is a phi of (false, b)
+		var retVals []struct {
+			v   ssa.Value
+			ret *ssa.Return
+		}
+		for _, ret := range returnsOf(fn) {
+			if len(ret.Results) != 1 {
+				okAll = false
+				continue
+			}
+			vals := []ssa.Value{ret.Results[0]}
+			if phi, ok := ret.Results[0].(*ssa.Phi); ok {
+				vals = phi.Edges
+			}
+			for _, v := range vals {
+				retVals = append(retVals, struct {
+					v   ssa.Value
+					ret *ssa.Return
+				}{v, ret})
+			}
+		}
+		for _, rv := range retVals {
+			v, ret := rv.v, rv.ret
+			if c, ok := v.(*ssa.Const); ok && c.Value != nil && c.Value.String() == "false" {
+				// must be on the nil-account edge
+				continue
+			}
+			call, ok := v.(*ssa.Call)
+			if !ok || calleeName(&call.Call) != "(*hotline.AccessBitmap).IsSet" || len(call.Call.Args) != 2 || call.Call.Args[1] != ssa.Value(fn.Params[1]) {
+				okAll = false
+				why = "a return is neither the constant false nor Access.IsSet(access) at " + P.ipos(ret)
+				continue
+			}
+			// receiver must be &cc.Account.Access
+			fa, ok := call.Call.Args[0].(*ssa.FieldAddr)
+			if !ok {
+				okAll = false
+				why = "IsSet receiver is not the Access field"
+				continue
+			}
+			if f, _ := fieldOf(fa); f != "hotline.Account.Access" {
+				okAll = false
+				why = "IsSet receiver is " + f
+				continue
+			}
+			if acc, ok := loadedField(fa.X); !ok || acc != "hotline.ClientConn.Account" {
+				okAll = false
+				why = "Access is not the one of cc.Account"
+			}
+		}
+		// the nil test must exist
+		nilTest := false
+		factEdges(fn, func(e Edge, f Fact) {
+			if f.Kind == "nil" {
+				if fld, ok := loadedField(f.V); ok && fld == "hotline.ClientConn.Account" {
+					nilTest = true
+				}
+			}
+		})
+		if !nilTest {
+			okAll = false
+			why += " no nil-account test"
+		}
+		R.check(okAll, "authorize-sound", fname(fn), P.pos(fn.Pos()), "returns false for nil account, else Account.Access.IsSet(access)", "Authorize no longer has the shape 'nil account → false, else Account.Access.IsSet(access)': "+why)
+	}
+
+}
